@@ -43,10 +43,10 @@ TRUSTED = ["translator harness/translate/g4_c07_constants.py (Python ast -> cons
            "modelled not verified: torch / linear_operator primitives (Cholesky, solves, DiagLinearOperator.diagonal)"]
 ASSUMPTIONS = ["float64 only (torch default dtype set to float64 by the harness, so GreaterThan(1e-4).lower_bound is the float64 1e-4)",
                "positive definiteness of the Matern covariance FUNCTIONS in input dimension d > 1 (nu = 1/2, 3/2, 5/2), of the "
-               "piecewise-polynomial functions (q >= 1; q = 0 in d > 1) and of the derivative kernels RBFKernelGrad, RBFKernelGradGrad, "
+               "piecewise-polynomial functions (q >= 1; q = 0 in d > 1) and of the derivative kernels RBFKernelGradGrad, "
                "Matern52KernelGrad is NOT proved (gram_psd_partial): observed numerically and certified exactly per "
                "sampled float64 matrix only (counter gram_cells_family_observed_only); RBF, RQ, Matern-1/2, -3/2, -5/2 in d = 1, the triangle "
-               "kernel (piecewise q = 0, d = 1), Hamming-IMQ, PolynomialKernelGrad, cosine (d = 1), periodic, spectral mixture, linear, polynomial, constant, "
+               "kernel (piecewise q = 0, d = 1), Hamming-IMQ, PolynomialKernelGrad, RBFKernelGrad (also ARD), cosine (d = 1), periodic, spectral mixture, linear, polynomial, constant, "
                "index, multitask/LCM structure, cylindrical (radial factor on 1-d radii: RBF, RQ, Matern), scale, sums and products ARE "
                "theorems for all sizes",
                "kernels not examined: ArcKernel, GaussianSymmetrizedKLKernel/DistributionalInputKernel (not PD in general), "
@@ -290,6 +290,7 @@ PROVED_FAMILIES = {
     "product_structure": "gram_finite_product_psd + gram_rbf_psd", "cylindrical[rbf]": "gram_cylindrical_psd + gram_rbf_psd",
     # wave 3
     "hamming": "gram_hamming_imq_psd (any sequence length / vocabulary, alpha, beta > 0)",
+    "rbf_grad": "gram_rbf_grad_psd (shared and ARD lengthscales; jet product of a(x)a(y) with the jet exponential, chain-rule congruence)",
     "polynomial_grad": "gram_polynomial_grad_psd (value / gradient blocks of (<x,y>+c)^p by the Leibniz jet product; interleaved layout = reindexing)",
     "cylindrical[matern2.5]": "gram_cylindrical_psd + gram_matern52_1d_psd (the radial factor acts on the one-dimensional radii kuma(r))",
     "matern[d=1]": "gram_matern12_1d_psd / gram_matern32_1d_psd / gram_matern52_1d_psd (input dimension one only)",
@@ -301,7 +302,7 @@ PROVED_FAMILIES = {
 OBSERVED_ONLY = {
     "matern[d>1]": "Matern nu in {1/2, 3/2, 5/2} in input dimension d > 1 (d = 1: theorems)",
     "piecewise": "PiecewisePolynomialKernel q >= 1 in any dimension, q = 0 in d > 1 (q = 0, d = 1: gram_piecewise_q0_1d_psd)",
-    "rbf_grad": "RBFKernelGrad", "rbf_gradgrad": "RBFKernelGradGrad", "matern52_grad": "Matern52KernelGrad",
+    "rbf_gradgrad": "RBFKernelGradGrad (second-order jets)", "matern52_grad": "Matern52KernelGrad",
     "sum[d>1]": "contains Matern-3/2 (d > 1)", "product[d>1]": "contains Matern-1/2 (d > 1)",
     "lcm[d>1]": "contains Matern-3/2 (d > 1)"}
 
